@@ -98,6 +98,8 @@ def gen_history(rng):
         # the scaffold holds only its first k rows when the assembly indexes it and
         # gains the others afterwards; whatever a lookup then returns must be consistent
         hist["late_rows"] = rng.randint(1, len(rows) - 1)
+    if rng.random() < 0.1:
+        hist["dup_add"] = True
     return hist
 
 
@@ -375,6 +377,16 @@ def build(hist):
             decoy.add_row(Gap(r[1], r[2]) if r[0] == "G" else Fragment(r[1], r[2], r[3], r[4]))
         decoy.reverse()
         ia.add_scaffold(decoy)
+    if hist.get("dup_add"):
+        # another scaffold of the same name is offered and refused: the refusal
+        # must leave the indexed one as it was
+        other = Scaffold("scf")
+        for r in hist["rows"][::-1][: max(1, len(hist["rows"]) // 2)]:
+            other.add_row(Gap(r[1], r[2]) if r[0] == "G" else Fragment(r[1], r[2], r[3], r[4]))
+        try:
+            ia.add_scaffold(other)
+        except ValueError:
+            pass
     a, b, strand, tags = hist["bait"]
     bait = Fragment("scf", a, b, strand, tuple(tags))
     return sc, ia, bait
